@@ -163,7 +163,7 @@ impl<F: Read + Seek> Seek for Stream<F> {
                         delta,
                     );
                     } else {
-                        let delta = (-delta) as u64;
+                        let delta = delta.unsigned_abs();
                         if delta > self.total_len {
                             invalid_input!(
                                 "Cannot seek to {} bytes before end, because \
@@ -179,7 +179,7 @@ impl<F: Read + Seek> Seek for Stream<F> {
                     let old_pos = self.current_position();
                     debug_assert!(old_pos <= self.total_len);
                     if delta < 0 {
-                        let delta = (-delta) as u64;
+                        let delta = delta.unsigned_abs();
                         if delta > old_pos {
                             invalid_input!(
                             "Cannot seek to {} bytes before current position, \
